@@ -4,6 +4,8 @@ set -e
 cd "$(dirname "$0")"
 export CARGO_NET_OFFLINE=true
 python3 tools/extract.py
-(cd lean && lake build CB cbmodel 2>&1 | tail -3)
+# every property module (and the modules about the definitions regenerated from the source) is built here once, so
+# that a check only re-elaborates what a changed source invalidates
+(cd lean && lake build CB cbmodel $(ls CB/Props/*.lean | sed 's#/#.#g; s#\.lean$##') 2>&1 | tail -3)
 (cd harness && cargo build --offline --release 2>&1 | tail -2 && cargo build --offline --profile dbgchk 2>&1 | tail -2)
 echo setup-done
